@@ -17,7 +17,8 @@ use std::panic::{catch_unwind, AssertUnwindSafe};
 
 pub fn langs_for(o: &Opts, salt: usize) -> Vec<SupportLang> {
   let all = SupportLang::all_langs();
-  if o.thorough {
+  // the matcher streams (salt 2, 3) are cheap: all 23 languages in both tiers
+  if o.thorough || salt == 2 || salt == 3 {
     return all.to_vec();
   }
   let mut v = vec![SupportLang::JavaScript];
@@ -148,15 +149,24 @@ pub fn tie_match(out: &mut Out, p: &Pattern<SupportLang>, t: &N, what: &str) -> 
   };
   let input = vl![Val::str_bytes(&text), td.val.clone(), dump_pattern(p)];
   out.case(10, &input, &expected, what);
-  let len = catch_unwind(AssertUnwindSafe(|| p.get_match_len(t.clone()))).unwrap_or(None);
-  out.case(11, &input, &Val::opt(len.map(Val::n)), what);
+  let len = match catch_unwind(AssertUnwindSafe(|| p.get_match_len(t.clone()))) {
+    Ok(l) => {
+      out.case(11, &input, &Val::opt(l.map(Val::n)), what);
+      l
+    }
+    Err(_) => {
+      out.case(11, &input, &Val::err("panic"), what);
+      out.oracle_fail("", &format!("get_match_len panics: {what}"), serde_json::json!({"stream": "match-len-panic", "case": what}));
+      None
+    }
+  };
   (matched, len)
 }
 
 pub fn run_c02(o: &Opts) {
   let mut out = Out::new(&o.out);
   let mut rng = Rng::new(o.seed ^ 0xc02);
-  let per_src = if o.thorough { 80 } else { 40 };
+  let per_src = if o.thorough { 200 } else { 60 };
   let nsrc = if o.thorough { 8 } else { 5 };
   let mut shape_ok = 0u64;
   let mut shape_differs = 0u64;
@@ -336,11 +346,14 @@ impl<'a> Aligner<'a> {
   }
 }
 
+struct Planned { lang: SupportLang, src: String, ptext: String, start: usize, end: usize, kind: u16, si: usize }
+
 pub fn run_c03(o: &Opts) {
   let mut out = Out::new(&o.out);
+  let mut plan: Vec<Planned> = vec![];
   let mut rng = Rng::new(o.seed ^ 0xc03);
-  let per_src = if o.thorough { 150 } else { 70 };
-  let nsrc = if o.thorough { 8 } else { 5 };
+  let per_src = if o.thorough { 400 } else { 150 };
+  let nsrc = if o.thorough { 8 } else { 6 };
   let mut matched_n = 0u64;
   let mut sampled = false;
   for lang in langs_for(o, 3) {
@@ -389,13 +402,6 @@ pub fn run_c03(o: &Opts) {
       }
       for _ in 0..per_src {
         let (ptext, pk) = rng.pick(&pool).clone();
-        let Ok(Ok(p0)) = catch_unwind(AssertUnwindSafe(|| Pattern::try_new(&ptext, lang))) else {
-          out.count("pattern-rejected");
-          continue;
-        };
-        if matches!(p0.node, PatternNode::MetaVar { meta_var: MetaVariable::Multiple | MetaVariable::MultiCapture(_) }) {
-          continue; // a bare ellipsis at the root is a debug_assert in the matcher, not a pattern
-        }
         // near misses: prefer candidates of the pattern's kind
         let t = match by_kind.get(&pk) {
           Some(ix) if rng.chance(4, 5) => nodes[*rng.pick(ix)].clone(),
@@ -405,6 +411,34 @@ pub fn run_c03(o: &Opts) {
           continue;
         }
         let si = rng.below(5);
+        plan.push(Planned { lang, src: src.clone(), ptext, start: t.range().start, end: t.range().end, kind: t.kind_id(), si });
+      }
+    }
+  }
+  // the planned cases are executed in a shuffled order ACROSS languages and sources, so that any state
+  // kept between matches (caches keyed too coarsely, thread-locals) is exercised; the matcher is a pure
+  // function of (pattern, node), so the model's answer does not depend on the order
+  rng.shuffle(&mut plan);
+  let mut parsed: HashMap<(String, String), corpus::Sg> = HashMap::new();
+  for pc in &plan {
+    let lang = pc.lang;
+    let key = (lang.to_string(), pc.src.clone());
+    if !parsed.contains_key(&key) {
+      parsed.insert(key.clone(), corpus::parse(lang, &pc.src));
+    }
+    let sg = &parsed[&key];
+    let Some(t) = corpus::all_nodes(sg.root()).into_iter().find(|n| n.range().start == pc.start && n.range().end == pc.end && n.kind_id() == pc.kind) else { continue };
+    let ptext = pc.ptext.clone();
+    let si = pc.si;
+    {
+      {
+        let Ok(Ok(p0)) = catch_unwind(AssertUnwindSafe(|| Pattern::try_new(&ptext, lang))) else {
+          out.count("pattern-rejected");
+          continue;
+        };
+        if matches!(p0.node, PatternNode::MetaVar { meta_var: MetaVariable::Multiple | MetaVariable::MultiCapture(_) }) {
+          continue; // a bare ellipsis at the root is a debug_assert in the matcher, not a pattern
+        }
         let p = p0.with_strictness(strict_of(si));
         let what = format!("c03 lang={lang} strictness={} pattern={ptext:?} code={:?}", STRICT_NAMES[si], t.text());
         let (matched, len) = tie_match(&mut out, &p, &t, &what);
@@ -412,7 +446,7 @@ pub fn run_c03(o: &Opts) {
         out.count(if matched { "matched" } else { "not-matched" });
         if matched {
           matched_n += 1;
-          out.nontrivial(&(lang.to_string(), ptext.clone(), si, t.range().start, src.len()));
+          out.nontrivial(&(lang.to_string(), ptext.clone(), si, t.range().start, pc.src.len()));
           if !sampled {
             sampled = true;
             out.sample(json!({"lang": lang.to_string(), "strictness": STRICT_NAMES[si], "pattern": ptext, "code": t.text(), "matched": true}));
